@@ -410,7 +410,7 @@ def run(ch, ctx, fault=None):
                 op = ch.weighted("op", [
                     (10, "draw"), (3, "create"), (2, "drop"), (5, "layout"), (3, "scroll"),
                     (6, "grid_edit"), (3, "move_overlay"), (2, "resize"), (1, "clear"),
-                    (2, "clear_images"), (1, "stop_start"), (2, "draw_interrupted"),
+                    (2, "clear_images"), (1, "stop_start"), (3, "draw_interrupted"),
                     (2, "swap_toggle"), (4 if layout["kind"] == "overlay" else 0, "popup"),
                 ])
             if queue:
@@ -520,8 +520,10 @@ def run(ch, ctx, fault=None):
                     layout = {"kind": "pile", "items": []}
                     continue
                 out.drain()
-                int_at = ch.int("int_at", 1, 6) if ch.bool("int_early", 0.4) else \
-                    ch.int("int_at_late", 7, 60)
+                # (the second write of a redraw is the batch of delete commands, if any image
+                # has to go: the clean-up itself is cut short)
+                int_at = ch.pick("int_at", (1, 2, 2, 2, 3, 4, 5, 6)) if ch.bool("int_early", 0.5) \
+                    else ch.int("int_at_late", 7, 60)
                 seen_w = [0]
                 real_write = out.write
 
@@ -548,13 +550,23 @@ def run(ch, ctx, fault=None):
                                                else "(completed)")
                 last_geo[0] = None
                 force_new[0] = True
-                if hit and ch.bool("same_canvas_again", 0.5):
+                if hit and ch.bool("same_canvas_again", 0.6):
                     # the main loop survives and draws again: nothing was invalidated, so it is
                     # the very same canvas object
                     screen.draw_screen((size[0], size[1]), canvas)
                     out.drain()
                     check(not vt.synced, "synchronized_update_left_open", {}, "draw")
                     desc += "; the same canvas drawn again"
+                    # that redraw was complete: the screen shows exactly that canvas's images
+                    rvt = reference(canvas)
+                    got_p, exp_p = vt.placement_keys(), rvt.placement_keys()
+                    if got_p != exp_p:
+                        ghosts = [p for p in got_p if p not in exp_p]
+                        missing = [p for p in exp_p if p not in got_p]
+                        raise Violation("ghost_image" if ghosts else "image_missing_after_redraw",
+                                        {"ghosts": ghosts[:5], "missing": missing[:5],
+                                         "layout": repr(layout)[:300],
+                                         "history": key[-8:] + [desc]}, "draw")
                     ctx.probe("same_canvas_drawn_again_after_interrupt")
             elif op == "swap_toggle":
                 # the application corrects the reported window dimensions (win-size swap): the
